@@ -518,7 +518,7 @@ func (h *c07Hist) login(u, pw int) {
 				What: fmt.Sprintf("password #%d of %s was rejected by the directory %d s ago (after its last confirmation) and is accepted from the cache now (%s)", pw, raw, h.now-tr, circumstance), Case: kase, Observed: obs})
 		}
 	}
-	if answered && dirOK && verdict && e.mode != c15Dead {
+	if answered && dirOK && verdict && c15Writable(e.mode) {
 		h.confirmedAt[key] = h.now
 		h.confSeq[key] = len(h.ops)
 		if !wrote {
@@ -704,7 +704,7 @@ func (h *c07Hist) randomOp(allowTamper bool) {
 	case w < 73:
 		h.age([]int64{3601, 180007, 340003, 349201, 720011}[rng.Intn(5)])
 	case w < 82:
-		h.setMode(rng.Intn(3))
+		h.setMode(c15RandomMode(rng, true))
 	case w < 87:
 		h.sync()
 	default:
@@ -958,7 +958,7 @@ func TestVerif_C07(t *testing.T) {
 				}
 			}
 			if rng.Intn(2) == 0 {
-				h.setMode(rng.Intn(3))
+				h.setMode(c15RandomMode(rng, true))
 			}
 			for u := 1; u <= 2; u++ {
 				h.login(u, h.dirPw[u])
